@@ -220,10 +220,39 @@ def shrink_case(ctx, exe, case):
     return head + ' | ' + ' | '.join(ops)
 
 
+def source_key(ctx, src, flags):
+    """content hash of the harness source, the framework header and EVERY momo header of the tree under test"""
+    import hashlib, glob
+    h = hashlib.sha256()
+    files = [os.path.join(ctx.pdir, src), os.path.join(ctx.root, 'harness', 'private_access.h')]
+    files += sorted(glob.glob(os.path.join(ctx.repo, 'include', 'momo', '**', '*.h'), recursive=True))
+    for f in files:
+        h.update(f.encode()); h.update(open(f, 'rb').read())
+    h.update(repr((flags, ctx.tier)).encode())
+    return h.hexdigest()
+
+
 def build_harnesses(ctx):
+    """compile the five harness TUs in parallel; a binary is reused only if the source AND all momo headers are
+    byte-identical to the ones it was built from (so the tie is always to the current tree)"""
     jobs = [('harness.cpp', 'harness%d' % v, ['-DVARIANT=%d' % v]) for v in VARIANTS]
     jobs.append(('harness_idx.cpp', 'harness_idx', []))
-    return ctx.cxx_many(jobs)
+    res = {}; todo = []
+    san = '.san' if ctx.tier == 'thorough' else ''
+    for (src, exe, flags) in jobs:
+        key = source_key(ctx, src, flags); out = os.path.join(ctx.build, exe + san); kf = out + '.key'
+        if os.path.exists(out) and os.path.exists(kf) and open(kf).read() == key:
+            res[exe] = out
+        else:
+            todo.append((src, exe, flags, key, kf))
+    if todo:
+        built = ctx.cxx_many([(s, e, f) for (s, e, f, k, kf) in todo])
+        for (s, e, f, k, kf) in todo:
+            res[e] = built.get(e)
+            if built.get(e): open(kf, 'w').write(k)
+            elif os.path.exists(kf): os.remove(kf)
+    ctx.coverage['harness_rebuilt'] = [e for (s, e, f, k, kf) in todo]
+    return res
 
 
 def replay(ctx, rp):
